@@ -61,7 +61,7 @@ func (r reader) Paths(ctx context.Context) []lang.Path {
 
 func (r reader) PathContext(path lang.Path) (*decoder.PathContext, error) {
 	for _, p := range r.w.Paths {
-		if p.Path.Equals(path) {
+		if p.Path.Path == path.Path && p.Path.LanguageID == path.LanguageID {
 			if p.Fail {
 				return nil, fmt.Errorf("path %q cannot be read", path.Path)
 			}
